@@ -9,7 +9,7 @@ N == Len(Traces)
 ASSUME \A t \in 1..N : TLCSet(t, 0)
 TW == {"T", "T!", "[T]", "[T]!", "[T!]", "[T!]!", "[[T!]]"}
 TK == {"int", "enum", "ser", "native", "raw", "input"}
-TP == {"var", "field", "nested", "result", "result_nested", "result_fragment"}
+TP == {"var", "field", "nested", "sub_var", "sub_field", "result", "result_nested", "result_fragment"}
 TS == {"omitted", "none", "val", "val_nullitem", "empty", "val_falsy", "val_nullfirst"}
 AsBuiltDev == {"toplevel_serialize_whole"}
 
@@ -19,7 +19,8 @@ Ev == Traces[tid][l]
 
 TraceInit ==
   /\ tid \in 1..N /\ l = 2
-  /\ c = [w |-> Traces[tid][1].w, kind |-> Traces[tid][1].kind, pos |-> Traces[tid][1].pos, state |-> Traces[tid][1].state]
+  /\ c = [w |-> Traces[tid][1].w, kind |-> Traces[tid][1].kind, pos |-> Traces[tid][1].pos, state |-> Traces[tid][1].state,
+          dflt |-> Traces[tid][1].dflt]
   /\ stage = "call" /\ present = TRUE /\ wire = <<"null">> /\ serLog = <<>> /\ delivered = <<"pending">>
 T_Silent == Next /\ l' = l /\ tid' = tid
 T_Observed ==
